@@ -338,3 +338,47 @@ Proof.
     destruct (glookup g0 t) as [[kap o]|] eqn:Elk; [|simpl in Hne; congruence]. eauto.
   - eauto.
 Qed.
+
+(* the wire-cut insertion loop succeeds on the actions of any goal state satisfying the invariant *)
+Lemma insert_wire_cuts_val nq t c W acts M best pl c1 :
+  circ_wf c ->
+  let names := names_of nq t c in let gates := gates_of nq t c in
+  Inv names W gates acts M best pl -> length pl = length gates -> length c1 = length c ->
+  exists c2, insert_wire_cuts c c1 0 (sort_actions (filter (fun a => negb (is_gate_cut a)) (actions best))) = Val c2.
+Proof.
+  intros WFc names gates I Hlen Hl1.
+  destruct (gates_of_circ nq t c) as (NDn & Hincg & Hgspec & Hgall). fold names gates in NDn, Hincg, Hgspec, Hgall.
+  pose proof (gates_wf nq t c WFc) as Hgwf. fold names gates in Hgwf.
+  set (P := combine gates pl).
+  assert (HginstP : map ginst P = map g_inst gates).
+  { unfold ginst. rewrite <- map_map. unfold P. rewrite map_fst_combine by lia. reflexivity. }
+  assert (HincP : incr_from 0 (map ginst P)) by (rewrite HginstP; exact Hincg).
+  assert (HinP : forall g kd, In (g, kd) P -> In g gates) by (intros g kd Hin; eapply in_combine_l; exact Hin).
+  destruct (acts_split P (actions best) (inv_acts _ _ _ _ _ _ _ I)) as [_ Hwires].
+  set (Aw := filter (fun a => negb (is_gate_cut a)) (actions best)) in *.
+  assert (HincAw : incr_from 0 (map inst Aw)).
+  { rewrite map_inst_wkey, Hwires. apply incr_wires. exact HincP. }
+  rewrite (sort_sorted 0 Aw HincAw).
+  exists ([] ++ weave (mk_of c) 0 c1 Aw).
+  change c1 with ([] ++ c1) at 1.
+  apply insert_wire_cuts_weave; auto.
+  intros a Hina.
+  assert (Hk : In (wkey a) (wires P)) by (rewrite <- Hwires; apply in_map; exact Hina).
+  unfold wkey in Hk. destruct (in_wires _ _ _ Hk) as (g & kd & HinP' & Hgi & Hk1 & Hk2 & Hn).
+  destruct (Hgspec g (HinP _ _ HinP')) as (x & Hx & Hm & Hq & _ & _).
+  destruct (Hgwf g (HinP _ _ HinP')) as (GL & _).
+  assert (Hlt : inst a < length c) by (rewrite <- Hgi; apply nth_error_Some; congruence).
+  split; [rewrite Hl1; simpl; exact Hlt|]. split; [|split; [|exact Hlt]].
+  - assert (HinA : In a (actions best)) by (unfold Aw in Hina; apply filter_In in Hina; tauto).
+    pose proof (proj1 (Forall_forall _ _) (inv_args _ _ _ _ _ _ _ I) a HinA) as Hok.
+    unfold args_ok in Hok. unfold wire_args_ok. rewrite Hn in *. destruct kd; try congruence; exact Hok.
+  - rewrite <- Hgi, (nth_error_nth _ _ dI Hx), Hq, map_length, GL. lia.
+Qed.
+
+Lemma cut_gates_length t : forall ids c c1, cut_gates t c ids = Val c1 -> length c1 = length c.
+Proof.
+  induction ids as [|id r IH]; intros c c1 H; simpl in H; [inversion H; reflexivity|].
+  destruct (nth_error c id); [|discriminate].
+  destruct (wrap_instr t i) as [i'| | |]; cbn [obind] in H; try discriminate.
+  rewrite (IH _ _ H). apply upd_length.
+Qed.
